@@ -16,6 +16,7 @@ CONSTANTS
     AlphA, MaxLenA,      \* ASCII85: all byte strings over AlphA up to MaxLenA
     AlphZ, MaxLenZ,      \* stored zlib: all strings over AlphZ up to MaxLenZ, every block size in BlockSizes
     BlockSizes,
+    AlphH, MaxLenH,      \* ASCIIHex: all strings over AlphH up to MaxLenH, five spellings
     AlphL, MaxLenL,      \* LZW: all strings over AlphL up to MaxLenL, EarlyChange 0|1, with/without extra clear codes
     NLong,               \* number of long LZW patterns (cross the 9->10.. bit boundaries)
     MaxCols, ColorSet, MaxRows, NData,   \* PNG: Columns 1..MaxCols x Colors x BPC {8,16} x 5^rows filter types
@@ -25,6 +26,9 @@ CONSTANTS
     MaxChain,            \* chains of length 2..MaxChain over the six stage templates
     PaethPlanes,         \* the whole (above, upper-left) plane is tabulated for left in 0..PaethPlanes-1 (0 = off)
     Emit,
+    DevInd,                  \* open finding indirect.*: entries written as references are treated as absent (TRUE = as the code is)
+    DevEncAvg,               \* open finding png.encode-avg: encode_row(Avg) adds left + above in u8 (TRUE = the code as it is)
+    RowAlph, RowAlph3,       \* encode_row o decode_row: all pairs of 2-byte rows over RowAlph, of 3-byte rows over RowAlph3
     DevEmpty,                \* finding filter.empty-array (repaired by a002bcd): /Filter [] decoded to nothing (TRUE = the code as it was)
     DevAvg, DevArr, DevNul   \* deviation switches of Codecs' impl-shaped layer: the code as it is (all FALSE = repaired)
 
@@ -46,7 +50,7 @@ ASSUME Vectors ==
 
 SeqsUpTo(S, n) == UNION {[1..k -> S] : k \in 0..n}
 
-Ch0 == [fts |-> <<>>, bs |-> 65535, useZ |-> TRUE, reset |-> 4094]
+Ch0 == [fts |-> <<>>, bs |-> 65535, useZ |-> TRUE, reset |-> 4094, style |-> "upper", seg |-> 128, eod |-> TRUE]
 Parms(pred, colors, bpc, columns, early) ==
     [present |-> TRUE, pred |-> pred, colors |-> colors, bpc |-> bpc, columns |-> columns, early |-> early]
 
@@ -147,7 +151,7 @@ PaethTriples ==
 PickPaeth ==
     /\ pc = "pick"
     /\ \E t \in PaethTriples : LET a == t[1] b == t[2] c == t[3] IN
-          case' = [k |-> "row", ft |-> 4, bpp |-> 1, prev |-> <<c, b>>, cur |-> <<(a + 256 - c) % 256, 0>>,
+          case' = [k |-> "row", fam |-> "row4", ft |-> 4, bpp |-> 1, prev |-> <<c, b>>, cur |-> <<(a + 256 - c) % 256, 0>>,
                    abc |-> <<a, b, c>>]
     /\ pc' = "case"
 
@@ -155,12 +159,23 @@ PickPaeth ==
 PickRow ==
     /\ pc = "pick"
     /\ \E ft \in 0..3, bpp \in {1, 2}, a \in StratRow, b \in StratRow, x \in StratRow :
-          case' = [k |-> "row", ft |-> ft, bpp |-> bpp, prev |-> <<b, a, x>>, cur |-> <<a, x, b>>, abc |-> <<a, b, x>>]
+          case' = [k |-> "row", fam |-> "row", ft |-> ft, bpp |-> bpp, prev |-> <<b, a, x>>, cur |-> <<a, x, b>>, abc |-> <<a, b, x>>]
+    /\ pc' = "case"
+
+\* encode_row then decode_row is the identity: all five filter types, bpp 1 and 2, every pair of rows of two bytes
+\* over RowAlph (and of three bytes over RowAlph3)
+PickRowEnc ==
+    /\ pc = "pick"
+    /\ \E ft \in 0..4, bpp \in {1, 2} :
+          \/ \E prev \in [1..2 -> RowAlph], raw \in [1..2 -> RowAlph] :
+                case' = [k |-> "row", fam |-> "rowenc", ft |-> ft, bpp |-> bpp, prev |-> prev, cur |-> raw, abc |-> <<-1, -1, -1>>]
+          \/ \E prev \in [1..3 -> RowAlph3], raw \in [1..3 -> RowAlph3] :
+                case' = [k |-> "row", fam |-> "rowenc", ft |-> ft, bpp |-> bpp, prev |-> prev, cur |-> raw, abc |-> <<-1, -1, -1>>]
     /\ pc' = "case"
 
 \* chains of 2..MaxChain stages over six stage templates; the stages are made concrete from the
 \* innermost (last decoded) outwards because a predictor's Columns depends on the data it sees
-Templates == {"a85", "fl", "flp", "lz0", "lz1", "lzp"}
+Templates == {"a85", "fl", "flp", "lz0", "lz1", "lzp", "ahx", "rl", "flt"}
 ChainPlains == {<<>>, <<7, 0, 0, 0, 0, 250, 7>>}
 \* Average rows only in the last stage: a stage that is known to reconstruct Average rows wrongly
 \* (png.avg) would hand garbage to the stages after it, whose treatment of invalid data no
@@ -170,6 +185,10 @@ ConcreteStage(t, x, ft0, last) ==
     LET n == Len(x) ft == NoAvg(ft0, last) IN
     CASE t = "a85" -> [st |-> Stage(A85, DefaultParms), ch |-> Ch0]
       [] t = "fl"  -> [st |-> Stage(Flate, DefaultParms), ch |-> [Ch0 EXCEPT !.bs = 5]]
+      [] t = "ahx" -> [st |-> Stage(AHx, DefaultParms), ch |-> [Ch0 EXCEPT !.style = <<"upper", "lower", "ws", "odd", "noeod">>[(n % 5) + 1]]]
+      [] t = "rl"  -> [st |-> Stage(RL, DefaultParms), ch |-> [Ch0 EXCEPT !.seg = 2 + ft0, !.eod = (n % 2 = 0)]]
+      [] t = "flt" -> [st |-> Stage(Flate, Parms(2, 1, 4, IF n = 0 THEN 1 ELSE n, 1)),            \* TIFF predictor, 4-bit samples, rows of ceil(n/2) bytes
+                       ch |-> Ch0]
       [] t = "flp" -> [st |-> Stage(Flate, Parms(10 + ft, 1, 8, IF n = 0 THEN 1 ELSE n, 1)),      \* one row
                        ch |-> [Ch0 EXCEPT !.fts = IF n = 0 THEN <<>> ELSE <<ft>>]]
       [] t = "lz0" -> [st |-> Stage(Lzw, Parms(1, 1, 8, 1, 0)), ch |-> Ch0]
@@ -204,6 +223,79 @@ PickPaethPlane ==
     /\ pc = "pleft"
     /\ \E b \in 0..255 : case' = [k |-> "prow", a |-> case.a, b |-> b,
                                    row |-> [c \in 1..256 |-> PaethPredictor(case.a, b, c - 1)]]
+    /\ pc' = "case"
+
+\* ASCIIHexDecode: every input; upper / lower / mixed case, white-space of every kind between and inside the pairs,
+\* an odd number of digits (final 0 left out), no EOD marker
+PickAHx ==
+    /\ pc = "pick"
+    /\ \E plain \in SeqsUpTo(AlphH, MaxLenH) \cup {<<1, 35, 69, 103, 137, 171, 205, 239, 16>>}, style \in {"upper", "lower", "ws", "odd", "noeod"} :
+          case' = ChainCase("ahx", plain, <<Stage(AHx, DefaultParms)>>, <<[Ch0 EXCEPT !.style = style]>>, "none")
+    /\ pc' = "case"
+
+\* RunLengthDecode: runs and literal pieces of 1, 2, 127 and 128 bytes (the length byte's whole range), with and
+\* without the EOD byte; and every short string over two symbols cut into pieces of 1..3
+RLData(kind, n) ==
+    CASE kind = "run" -> [i \in 1..n |-> 77]
+      [] kind = "lit" -> [i \in 1..n |-> (i * 7) % 251]
+      [] kind = "mix" -> [i \in 1..n |-> IF i <= n \div 2 THEN 128 ELSE (i * 5) % 256]
+PickRL ==
+    /\ pc = "pick"
+    /\ \/ \E kind \in {"run", "lit", "mix"}, n \in {1, 2, 127, 128, 129, 256, 300}, seg \in {1, 2, 127, 128}, eod \in BOOLEAN :
+             case' = ChainCase("rl", RLData(kind, n), <<Stage(RL, DefaultParms)>>, <<[Ch0 EXCEPT !.seg = seg, !.eod = eod]>>, "none")
+       \/ \E plain \in SeqsUpTo({0, 128}, 4), seg \in 1..3, eod \in BOOLEAN :
+             case' = ChainCase("rl", plain, <<Stage(RL, DefaultParms)>>, <<[Ch0 EXCEPT !.seg = seg, !.eod = eod]>>, "none")
+    /\ pc' = "case"
+
+\* TIFF predictor 2: every BitsPerComponent x Colors x Columns geometry, one or two rows, also a short last row
+PickTiff ==
+    /\ pc = "pick"
+    /\ \E bpc \in {1, 2, 4, 8, 16}, colors \in ColorSet, columns \in {1, 2, 3, 5}, rows \in 1..2, cut \in {0, 1}, d \in 1..NData,
+          f \in {Flate, Lzw}, form \in {"dict", "array"} :
+          LET p == Parms(2, colors, bpc, columns, 1)
+              n == rows * RowLen(p) - cut IN
+          /\ n >= 1
+          /\ case' = ChainCase("tiff", Data(d, n), <<Stage(f, p)>>, <<Ch0>>, form)
+    /\ pc' = "case"
+
+\* PNG predictors with components of fewer than 8 bits: rows of ceil(Columns * Colors * BPC / 8) bytes, the left
+\* neighbour max(1, ceil(Colors * BPC / 8)) bytes away
+PickPngSub ==
+    /\ pc = "pick"
+    /\ \E bpc \in {1, 2, 4}, colors \in ColorSet \cup {3}, columns \in {1, 3, 5, 9}, rows \in 1..MaxRows, d \in 1..NData :
+          \E fts \in [1..rows -> 0..4] :
+             LET p == Parms(PredHint(fts), colors, bpc, columns, 1) IN
+             case' = ChainCase("pngsub", Data(d, rows * RowLen(p)), <<Stage(IF d = 1 THEN Flate ELSE Lzw, p)>>,
+                               <<[Ch0 EXCEPT !.fts = fts]>>, IF (rows + columns) % 2 = 0 THEN "dict" ELSE "array")
+    /\ pc' = "case"
+
+\* Indirect references (ISO 32000-1 7.3.10: the value of any dictionary entry may be one): the same streams with
+\* /DecodeParms n 0 R, /DecodeParms [n 0 R], one parameter value n 0 R, /Filter n 0 R or /Filter [n 0 R].  `chain` holds
+\* the *resolved* stages - that is what ISO says the stream means.  The methods of Stream have no Document to resolve
+\* a reference with, so the specified behaviour is: refuse (Err) or be right, never guess.
+IndBase ==
+    {[plain |-> Data(1, 8), chain |-> <<Stage(Flate, Parms(12, 1, 8, 4, 1))>>, chs |-> <<[Ch0 EXCEPT !.fts = <<2, 2>>]>>],
+     [plain |-> Data(2, 6), chain |-> <<Stage(Lzw, Parms(2, 1, 4, 3, 1))>>, chs |-> <<Ch0>>],
+     [plain |-> LongPattern(1), chain |-> <<Stage(Lzw, Parms(1, 1, 8, 1, 0))>>, chs |-> <<Ch0>>],
+     [plain |-> <<77, 97, 110, 32, 105>>, chain |-> <<Stage(A85, DefaultParms)>>, chs |-> <<Ch0>>],
+     [plain |-> Data(1, 6), chain |-> <<Stage(AHx, DefaultParms), Stage(Flate, Parms(11, 2, 4, 3, 1))>>,
+      chs |-> <<Ch0, [Ch0 EXCEPT !.fts = <<1, 4>>]>>]}
+IndForms(b) ==
+    LET n == Len(b.chain)
+        withP == {i \in 1..n : b.chain[i].present}
+        keysOf(st) == (IF st.pred # 1 THEN {"Predictor"} ELSE {}) \cup (IF st.columns # 1 THEN {"Columns"} ELSE {})
+                      \cup (IF st.colors # 1 THEN {"Colors"} ELSE {}) \cup (IF st.bpc # 8 THEN {"BitsPerComponent"} ELSE {})
+                      \cup (IF st.f = Lzw /\ st.early # 1 THEN {"EarlyChange"} ELSE {})
+    IN {[ind |-> "filter", idx |-> 0, key |-> "", form |-> IF withP = {} THEN "none" ELSE IF n = 1 THEN "dict" ELSE "array"]}
+       \cup {[ind |-> "filter-elem", idx |-> i, key |-> "", form |-> IF withP = {} THEN "none" ELSE "array"] : i \in 1..n}
+       \cup (IF n = 1 /\ withP # {} THEN {[ind |-> "parms", idx |-> 1, key |-> "", form |-> "dict"]} ELSE {})
+       \cup {[ind |-> "parms-elem", idx |-> i, key |-> "", form |-> "array"] : i \in withP}
+       \cup {[ind |-> "value", idx |-> i, key |-> k, form |-> IF n = 1 THEN "dict" ELSE "array"] : <<i, k>> \in {ik \in withP \X
+                {"Predictor", "Columns", "Colors", "BitsPerComponent", "EarlyChange"} : ik[2] \in keysOf(b.chain[ik[1]])}}
+PickIndirect ==
+    /\ pc = "pick"
+    /\ \E b \in IndBase : \E f \in IndForms(b) :
+          case' = [ind |-> f.ind, idx |-> f.idx, key |-> f.key] @@ ChainCase("indirect", b.plain, b.chain, b.chs, f.form)
     /\ pc' = "case"
 
 \* the chain of zero filters in its three spellings (no Filter entry, /Filter null, /Filter []), with
@@ -247,7 +339,7 @@ PickDisturb ==
     /\ \E d \in Disturbances : case' = d
     /\ pc' = "case"
 
-Next == PickDisturb \/ PickPaethLeft \/ PickPaethPlane \/ PickA85 \/ PickA85Ws \/ PickZ \/ PickLzw \/ PickLzwLong \/ PickPng \/ PickPngBytes \/ PickPaeth \/ PickRow \/ PickChain \/ PickNoFilter
+Next == PickDisturb \/ PickPaethLeft \/ PickPaethPlane \/ PickA85 \/ PickA85Ws \/ PickZ \/ PickLzw \/ PickLzwLong \/ PickPng \/ PickPngBytes \/ PickPaeth \/ PickRow \/ PickChain \/ PickNoFilter \/ PickAHx \/ PickRL \/ PickTiff \/ PickPngSub \/ PickRowEnc \/ PickIndirect
 
 Spec == Init /\ [][Next]_vars
 
@@ -266,20 +358,43 @@ RoundTrip == IsChain => Decode(case.enc, case.chain) = Good(case.plain)
 \* the reference encoders really produce what they claim (anti-vacuity of RoundTrip): the encoded
 \* form differs from the plain one and PNG data carries one filter byte per row
 EncoderShape ==
-    IsChain => /\ (case.chain # <<>> => case.enc # case.plain)
-               /\ case.fam = "png" =>
+    IsChain => /\ ((case.chain # <<>> /\ case.plain # <<>>) => case.enc # case.plain)
+               /\ case.fam \in {"png", "pngsub"} =>
                      LET st == case.chain[1]
                          z  == IF st.f = Flate THEN ZInflateStored(case.enc) ELSE LzwDecode(case.enc, st.early)
                      IN z.ok /\ Len(z.data) = Len(case.plain) + Len(case.fts)
 
 \* (impl-shaped, as repaired) lopdf's algorithm without the confirmed deviations refines the declarative layer
 \* decompressed_content is defined for a chain of zero filters only in the spelling /Filter []
-HasDecode(c) == c.chain # <<>> \/ c.ff = "empty"
+HasDecode(c) == (c.chain # <<>> \/ c.ff = "empty") /\ c.fam # "indirect"
 ImplRepaired(c) == IF c.chain = <<>> THEN ImplDecodeZero(c.enc, c.ff, FALSE)
                    ELSE ImplDecodeO(c.enc, c.chain, c.form, NoOracle, FALSE, FALSE, FALSE)
 ImplAsIs(c)     == IF c.chain = <<>> THEN ImplDecodeZero(c.enc, c.ff, DevEmpty)
                    ELSE ImplDecodeO(c.enc, c.chain, c.form, NoOracle, DevAvg, DevArr, DevNul)
 Refines == (IsChain /\ HasDecode(case)) => ImplRepaired(case) = Good(case.plain)
+
+\* Indirect forms.  Impl-shaped: what Stream::decompressed_content / get_plain_content make of them.
+\*   devInd  an entry written as a reference is treated as if it were not there (parameters: defaults; Filter: no
+\*           filter, so get_plain_content hands out the encoded bytes); repaired = the call is refused
+IsInd == IsChain /\ case.fam = "indirect"
+AbsentStage(c, i) ==
+    LET st == c.chain[i] IN
+    IF c.ind = "parms" \/ (c.ind = "parms-elem" /\ c.idx = i) THEN Stage(st.f, DefaultParms)
+    ELSE IF c.ind = "value" /\ c.idx = i
+    THEN [st EXCEPT !.pred = IF c.key = "Predictor" THEN 1 ELSE @, !.columns = IF c.key = "Columns" THEN 1 ELSE @,
+                    !.colors = IF c.key = "Colors" THEN 1 ELSE @, !.bpc = IF c.key = "BitsPerComponent" THEN 8 ELSE @,
+                    !.early = IF c.key = "EarlyChange" THEN 1 ELSE @]
+    ELSE st
+ImplIndDecode(c, devInd) ==
+    IF ~devInd \/ c.ind \in {"filter", "filter-elem"} THEN Fail(<<>>)
+    ELSE ImplDecodeO(c.enc, [i \in 1..Len(c.chain) |-> AbsentStage(c, i)], IF c.ind = "parms" THEN "none" ELSE c.form,
+                     NoOracle, FALSE, FALSE, FALSE)
+ImplIndPlain(c, devInd) ==
+    IF devInd /\ c.ind \in {"filter", "filter-elem"} THEN Good(c.enc) ELSE ImplIndDecode(c, devInd)
+AcceptInd(c, r) == ~r.ok \/ r.data = c.plain               \* refuse, or be right
+RefinesInd == IsInd => AcceptInd(case, ImplIndDecode(case, FALSE)) /\ AcceptInd(case, ImplIndPlain(case, FALSE))
+\* (as the code is) with devInd the guess is wrong somewhere in every kind of reference - the class is its name
+IndClasses(c) == IF c.fam = "indirect" THEN {"indirect." \o c.ind} ELSE {}
 
 \* classes of input on which the code deviates when the corresponding switch is on (the narrow signatures
 \* of the findings png.avg, decodeparms.array, a85.nul - all repaired; kept to name regressions);
@@ -312,11 +427,17 @@ RowWant(c) == PngDecodeRow(c.ft, c.bpp, c.prev, c.cur)
 RowImpl(c) == ImplPngDecodeRow(c.ft, c.bpp, c.prev, c.cur, DevAvg)
 RowAvgDev(c) == ImplPngDecodeRow(c.ft, c.bpp, c.prev, c.cur, TRUE)     \* the row as the repaired png.avg defect computed it
 PaethOK ==
-    (IsRow /\ case.ft = 4) =>
+    (IsRow /\ case.ft = 4 /\ case.abc[1] >= 0) =>
         /\ PaethPredictor(case.abc[1], case.abc[2], case.abc[3]) = PaethDecl(case.abc[1], case.abc[2], case.abc[3])
         /\ RowWant(case) = <<case.abc[1], PaethPredictor(case.abc[1], case.abc[2], case.abc[3])>>
-RowOK == IsRow => /\ PngDecodeRow(case.ft, case.bpp, case.prev, PngEncodeRow(case.ft, case.bpp, case.prev, case.cur)) = case.cur
+\* every row case is used in both directions: `cur` as filtered data (decode_row) and as raw data (encode_row)
+RowEncWant(c) == PngEncodeRow(c.ft, c.bpp, c.prev, c.cur)
+RowEncImpl(c) == ImplPngEncodeRow(c.ft, c.bpp, c.prev, c.cur, DevEncAvg)
+RowEncDev(c)  == ImplPngEncodeRow(c.ft, c.bpp, c.prev, c.cur, TRUE)
+RowOK == IsRow => /\ PngDecodeRow(case.ft, case.bpp, case.prev, RowEncWant(case)) = case.cur
+                  /\ ImplPngEncodeRow(case.ft, case.bpp, case.prev, case.cur, FALSE) = RowEncWant(case)
                   /\ (RowImpl(case) # RowWant(case) => case.ft = 3)
+                  /\ (RowEncImpl(case) # RowEncWant(case) => case.ft = 3 /\ Len(case.cur) > case.bpp)
 
 EmitInv ==
     (Emit /\ pc = "case") =>
@@ -326,7 +447,12 @@ EmitInv ==
                  IF case.k = "chain"
                  THEN ToJson([k |-> "chain", fam |-> case.fam, plain |-> case.plain, enc |-> case.enc, chain |-> case.chain,
                               form |-> case.form, ff |-> case.ff, fts |-> case.fts, impl |-> ImplAsIs(case), implAvg |-> ImplAvgOnly(case),
-                              cls |-> SetToSeq(Classes(case))])
-                 ELSE ToJson([k |-> "row", ft |-> case.ft, bpp |-> case.bpp, prev |-> case.prev, cur |-> case.cur,
-                              want |-> RowWant(case), impl |-> RowImpl(case), avgdev |-> RowAvgDev(case)])>>)
+                              cls |-> SetToSeq(Classes(case) \cup IndClasses(case))]
+                             @@ (IF case.fam = "indirect"
+                                 THEN [ind |-> case.ind, idx |-> case.idx, key |-> case.key,
+                                       impldc |-> ImplIndDecode(case, DevInd), implgp |-> ImplIndPlain(case, DevInd)]
+                                 ELSE <<>>))
+                 ELSE ToJson([k |-> "row", fam |-> case.fam, ft |-> case.ft, bpp |-> case.bpp, prev |-> case.prev, cur |-> case.cur,
+                              want |-> RowWant(case), impl |-> RowImpl(case), avgdev |-> RowAvgDev(case),
+                              encwant |-> RowEncWant(case), encdev |-> RowEncDev(case)])>>)
 =============================================================================
